@@ -115,9 +115,6 @@ class BDD:
     def xnor(self, f, g):
         return self.ite(f, g, self.neg(g))
 
-    def imp(self, f, g):
-        return self.ite(f, g, 1)
-
     def sat_one(self, f):
         """A (partial) satisfying assignment {var index: 0/1}, or None."""
         if f == 0:
@@ -549,7 +546,6 @@ def check_aligner(ctx, clsname, mod, windows, window_text):
         decide('C34.detection', 'detect.offset%d' % k, only, m.eqc(S1, k), sh_loc,
                '%s at positions %d..%d of (previous, current), and at no other offset, must set the shift register to %d' % (
                    window_text, k, k + B - 1, k), SH)
-        shown = True
         for w in windows:           # the output word must be the very window received (decided bit by bit)
             word = [x for sym in w for x in m.const(sym, 8)]
             hyp = b.and_(only, match(w, k))
@@ -558,7 +554,6 @@ def check_aligner(ctx, clsname, mod, windows, window_text):
                         '%s received at offset %d must appear as one whole registered output word [%s] with all ctrl bits (detection '
                         'offset composed with the routing)' % (window_text, k, ' '.join('%02X' % x for x in w)), OUT_D, got_out,
                         record=(w is windows[-1] or None))
-            shown = shown and ok
             if not ok:
                 break
         decide('C34.detection', 'no-spurious.offset%d' % k, b.and_(V, m.eqc(S1, k), b.neg(m.eqc(S, k))), C[k], sh_loc,
